@@ -806,8 +806,8 @@ class CacheCheck(Check):
 
     # sizes: (n_rand, n_takeover, n_small_random, sweep stride)
     SIZES = {
-        'quick': {'rand': 52000, 'take': 13000, 'small': 12000, 'sweep': 3000, 'real': 48},
-        'thorough': {'rand': 1400000, 'take': 300000, 'small': 200000, 'sweep': 60000, 'real': 1200},
+        'quick': {'rand': 52000, 'take': 13000, 'small': 12000, 'sweep': 3000, 'real': 48, 'many': 24},
+        'thorough': {'rand': 1400000, 'take': 300000, 'small': 200000, 'sweep': 60000, 'real': 1200, 'many': 600},
     }
     budget = {'quick': 45.0, 'thorough': 780.0}
 
@@ -819,6 +819,8 @@ class CacheCheck(Check):
                 ('sweep', sz['sweep'])]
         if self.pid in ('C01', 'C06'):
             fams.append(('real', sz['real']))
+        if self.pid in ('C01', 'C05'):
+            fams.append(('many', sz['many']))
         total = sum(n for _, n in fams)
         left = dict(fams)
         rng = random.Random(seed * 7919 + 13)
@@ -869,6 +871,20 @@ class CacheCheck(Check):
         elif fam == 'small':
             scen = gen_small(rng, self.flavour, rng.choice(DURS))
             strat = make_strategy(rng)
+        elif fam == 'many':
+            # hundreds of distinct keys in progress at once on one loop; callers on another loop then ask for the oldest,
+            # a middle and the newest of them (and for one nobody asked for yet)
+            n = rng.choice([130, 260, 300, 520])
+            dur = rng.choice([D0, 4 * D0])
+            t0 = {'start': 0, 'life': 'runner', 'tail': 0, 'pause': 0,
+                  'callers': [{'key': k, 'off': 0, 'style': 'await', 'param': 0} for k in range(n)]}
+            t1 = {'start': rng.choice([U, dur / 2]), 'life': 'runner', 'tail': 0, 'pause': 0,
+                  'callers': [{'key': k, 'off': 0, 'style': 'await', 'param': 0} for k in (0, n // 2, n - 1, n)]}
+            scen = {'inv': [[dur, False]], 'threads': [t0, t1], 'cache': rng.choice(['dict', 'rec'])}
+            strat = simrt.Strategy('none') if rng.random() < 0.5 else simrt.Strategy('random', 0.02, seed=rng.randrange(1 << 30))
+            self._delays = None
+            self._gc_at = None
+            return scen, strat, None
         else:   # sweep
             scen = gen_small(rng, self.flavour, rng.choice(DURS))
             k = rng.randrange(1, 260)
@@ -902,7 +918,8 @@ class CacheCheck(Check):
         if case['fam'] == 'real':
             return self.run_real(case)
         scen, strat, inject = self.build(case)
-        r = self.h.run(scen, strat, inject, delays=self._delays, gc_at=self._gc_at)
+        r = self.h.run(scen, strat, inject, delays=self._delays, gc_at=self._gc_at,
+                       **({'max_steps': 1500000} if case['fam'] == 'many' else {}))
         res = CaseResult()
         res.sig = r.signature
         res.cov = {k: c for k, c in r.sched.line_cov.items() if k[0].startswith(self.anchors)}
@@ -920,6 +937,8 @@ class CacheCheck(Check):
         st = res.stats
         st['executions'] += 1
         st[f'fam_{case["fam"]}'] += 1
+        if case['fam'] == 'many' and len(scen['threads'][0]['callers']) > 256:
+            st['more_than_256_keys_in_progress_at_once'] += 1
         for dim in ('result', 'fail_class', 'unwind', 'refuse', 'spawn', 'fnkind'):
             if scen.get(dim):
                 st[f'dimension_{dim}' + (f'_{scen[dim]}' if dim in ('result', 'fail_class', 'fnkind') else '')] += 1
@@ -979,7 +998,8 @@ class CacheCheck(Check):
     def floors(self, tier):
         q = tier == 'quick'
         if self.pid == 'C01':
-            f = {'path_cross_loop_wait': 50 if q else 2000, 'path_takeover': 50 if q else 2000,
+            f = {'more_than_256_keys_in_progress_at_once': 8 if q else 200,
+                 'path_cross_loop_wait': 50 if q else 2000, 'path_takeover': 50 if q else 2000,
                  'nontrivial': 1000 if q else 20000}
             if getattr(self, 'reprobe', None) or True:
                 f['path_locked_reprobe_hit'] = 50 if q else 2000
